@@ -49,8 +49,8 @@ def settingsRead? (fuel : Nat) (d : Bytes) (last i : Nat) (s : SettingsVal) : Op
       let s := { s with pairs := s.pairs ++ [(key, v)] }
       if key = Gen.c_HeaderTableSize then settingsRead? fuel d i (i + 6) { s with tableSize := v, hasTableSize := true }
       else if key = Gen.c_EnablePush then
-        if v > 1 then pure (.inr Gen.c_ProtocolError) else settingsRead? fuel d i (i + 6) { s with enablePush := v != 0 }
-      else if key = Gen.c_MaxConcurrentStreams then settingsRead? fuel d i (i + 6) { s with maxStreams := v }
+        if v > 1 then pure (.inr Gen.c_ProtocolError) else settingsRead? fuel d i (i + 6) { s with enablePush := v != 0, hasPush := true }
+      else if key = Gen.c_MaxConcurrentStreams then settingsRead? fuel d i (i + 6) { s with maxStreams := v, hasMaxStreams := true }
       else if key = Gen.c_MaxWindowSize then
         if v > 2 ^ 31 - 1 then pure (.inr Gen.c_FlowControlError)
         else settingsRead? fuel d i (i + 6) { s with windowSize := v, hasWindowSize := true }
